@@ -655,6 +655,11 @@ def insert_hints(text, hints):
             if s is None:
                 lost.append('%s %r' % (where, pattern))
                 continue
+            if where == 'after' and len(s) > 2 and s[2]:
+                # the statement is a block's tail expression: `E` -> `let r__ = E; <ghost> r__` (same value, same effects)
+                a, b = toks[s[0]].start, toks[s[1]].end
+                text = text[:a] + 'let r__ = ' + text[a:b] + ';\n' + ghost + '\nr__' + text[b:]
+                continue
             pos = toks[s[0]].start if where == 'before' else toks[s[1]].end
         text = text[:pos] + '\n' + ghost + '\n' + text[pos:]
     return text, lost
@@ -1207,4 +1212,54 @@ def n22_while_let(text):
         new = 'loop {\n            match %s {\n                %s => %s\n                _ => { break; }\n            }\n        }' % (expr, pat, body)
         text = text[:toks[k].start] + new + text[toks[cb].end:]
         recs.append(dict(rule='N22', before='while let %s = .. { .. }' % pat, after='loop { match .. { %s => { .. } _ => { break; } } }' % pat))
+    return text, recs
+
+
+def n25_brace_arms(text):
+    """N25: a match arm whose body is a bare expression, `PAT => EXPR,`, becomes `PAT => { EXPR }` (so that ghost text can be
+    placed before / after a statement that is an arm body). Pure syntax."""
+    recs = []
+    for _ in range(200):
+        ft = FnText(text)
+        if ft.body_open is None:
+            break
+        toks = ft.toks
+        hit = None
+        for k in ft.c:
+            if k <= ft.body_open or k >= ft.body_close:
+                continue
+            t = toks[k]
+            if t.kind == 'punct' and t.text == '=>':
+                n = ft.nextc(k)
+                if toks[n].text == '{':
+                    continue
+                # `unsafe { .. }` / `match .. { }` / `if .. { }` bodies still need braces when followed by more tokens: wrap uniformly
+                depth = 0
+                j = n
+                end = None
+                while j < ft.body_close:
+                    u = toks[j]
+                    if u.kind == 'punct':
+                        if u.text in OPEN:
+                            j = match_close(toks, j)
+                        elif u.text in CLOSE:
+                            end = j
+                            break
+                        elif u.text == ',':
+                            end = j
+                            break
+                    j += 1
+                if end is None:
+                    continue
+                # last code token before `end`
+                last = end - 1
+                while toks[last].kind in ('ws', 'lcomment', 'bcomment', 'doc'):
+                    last -= 1
+                hit = (n, last)
+                break
+        if hit is None:
+            break
+        n, last = hit
+        text = text[:toks[n].start] + '{ ' + text[toks[n].start:toks[last].end] + ' }' + text[toks[last].end:]
+        recs.append(dict(rule='N25', before='PAT => EXPR', after='PAT => { EXPR }'))
     return text, recs
